@@ -147,6 +147,33 @@ func probe(a arg) (string, string) {
 	return "", ""
 }
 
+type flightArg struct {
+	A string `json:"a"`
+	B string `json:"b"`
+}
+
+// results of one call (formatted text, parsed value) must not change when another call follows
+func probeFlight(p flightArg) (string, string) {
+	va, e1 := sem.Parse(p.A)
+	keepPre, keepBuild := va.PreRelease, va.Build
+	vb, e2 := sem.Parse([]byte(p.B))
+	if e1 != nil || e2 != nil {
+		return "", ""
+	}
+	if va.PreRelease != keepPre || va.Build != keepBuild || va.String() != strings.TrimPrefix(p.A, "v") {
+		return "value_changed_by_later_call", fmt.Sprintf("Parse(%q) kept across Parse(%q) now formats as %q", p.A, p.B, va.String())
+	}
+	ta, _ := va.MarshalText()
+	tb, _ := vb.MarshalText()
+	fa, _ := sem.DefaultFormatter(nil, va, sem.FormatTag)
+	fb, _ := sem.DefaultFormatter(nil, vb, 0)
+	wa, wb := strings.TrimPrefix(p.A, "v"), strings.TrimPrefix(p.B, "v")
+	if string(ta) != wa || string(tb) != wb || string(fa) != "v"+wa || string(fb) != wb {
+		return "text_overwritten_by_later_call", fmt.Sprintf("texts of %q and %q kept across later calls read %q, %q, %q, %q", p.A, p.B, ta, tb, fa, fb)
+	}
+	return "", ""
+}
+
 type verArg struct {
 	Core  int    `json:"core"`
 	Pre   mc.Bin `json:"pre"`
@@ -201,6 +228,18 @@ func main() {
 			}
 			p.Do(w, arg{mc.Bin(s)})
 		}
+		pfl := mc.NewProbe(r, "two_results_in_flight", nil, probeFlight)
+		r.Phase("serial: two results in flight (formatted text and parsed value must survive later calls), all ordered pairs of 12 versions", "complete for the listed versions", func() {
+			r.Serial(func(w *mc.W) {
+				vs := []string{"1.2.3", "v1.2.3-rc.1+b.5", "0.0.0", "10.20.30-alpha", "v2.0.0+meta", "18446744073709551615.0.1--", "1.0.0-a.b.c+x.y.z", "3.3.3-0", "v0.0.1", "1.1.1-x-y-z", "9.9.9+001", "v7.0.0-beta.11"}
+				for _, a := range vs {
+					for _, b := range vs {
+						w.Point()
+						pfl.Do(w, flightArg{a, b})
+					}
+				}
+			})
+		})
 		L := 7
 		if !r.Quick() {
 			L = 8
